@@ -67,6 +67,17 @@ fn row_of(table: &crate::snap::Table, addr: u32) -> Option<Snap> {
 
 /// the row of `addr` after `lines`, alone and behind `n` bystanders; None when the two agree
 pub fn crowd_difference(cfg: &Cfg, addr: u32, lines: &[Vec<u8>], n: usize) -> Option<String> {
+    if n == 0 {
+        // the line-end probe: with and without a final line feed
+        let with_lf = new_table();
+        let o1 = run_file(cfg, &join_lines(lines), &with_lf);
+        let mut content = join_lines(lines);
+        content.pop();
+        let without = new_table();
+        let o2 = run_file(cfg, &content, &without);
+        let (r1, r2) = (row_of(&with_lf, addr), row_of(&without, addr));
+        return if o1.is_ok() != o2.is_ok() || r1 != r2 { Some(format!("when the input ends without a final line feed the row differs (reader {} / {}; row present {} / {})", o1.label(), o2.label(), r1.is_some(), r2.is_some())) } else { None };
+    }
     let alone = new_table();
     let o1 = run_file(cfg, &join_lines(lines), &alone);
     let r1 = row_of(&alone, addr);
@@ -103,6 +114,22 @@ fn crowd_probe(cfg: &Cfg, vecs: &[Vector]) {
         return;
     }
     CROWD_PROBES.fetch_add(1, SeqCst);
+    // the same vector as the whole input WITHOUT a final line feed: the last line is a line like any other
+    {
+        let with_lf = new_table();
+        let o1 = run_file(cfg, &join_lines(&v.lines), &with_lf);
+        let mut content = join_lines(&v.lines);
+        content.pop();
+        let without = new_table();
+        let o2 = run_file(cfg, &content, &without);
+        let (r1, r2) = (row_of(&with_lf, v.addr), row_of(&without, v.addr));
+        if o1.is_ok() != o2.is_ok() || r1 != r2 {
+            let mut g = CROWD.lock().unwrap();
+            if g.len() < 16 {
+                g.push(CrowdFinding { opts: cfg.opts.clone(), addr: v.addr, lines: v.lines.clone(), n: 0, what: format!("when the input ends without a final line feed the row differs (reader {} / {}; row present {} / {})", o1.label(), o2.label(), r1.is_some(), r2.is_some()) });
+            }
+        }
+    }
     if let Some(what) = crowd_difference(cfg, v.addr, &v.lines, n) {
         let mut g = CROWD.lock().unwrap();
         if g.len() < 16 {
